@@ -1,6 +1,8 @@
 """Per-property level and explanation strings used in the evidence files."""
-LEVELS = {"C02": "proof", "C03": "proof", "C16": "proof", "C18": "other", "C10": "other", "C11": "proof", "C09": "other", "C19": "other", "C05": "other"}
+LEVELS = {"C02": "proof", "C03": "proof", "C16": "proof", "C18": "other", "C10": "other", "C11": "proof", "C09": "other", "C19": "other", "C05": "other", "C07": "other", "C04": "other"}
 EXPLAIN = {
+    "C07": "Schema mutators vs the two-view state model and the dict-mutator audits: every obligation discharged; @property fields and DataClass closures only at interface level",
+    "C04": "exceptional frames of the contracted parse-path functions: discharged except the listed known findings; converter-loop termination and call wrappers not decided",
     "C09": "combinator semantics: every obligation of logical_parse discharged for all inputs (abstract leaves); the construction algebra (combine, operators) is not under contract",
     "C19": "copy_value / get_default / frame and freshness obligations of the contracted parse functions: discharged; cross-call state not decided",
     "C05": "field predicates vs documented truth tables and their consistency lemma: discharged; the two field loops are not under contract",
